@@ -169,7 +169,10 @@ def verify_function(repo, qual, con, types, contracts, specfuns=None, timeout_ms
                 d = dict(p.get(frame))
                 d["result"] = res
                 p.put(frame, d)
+                skip = set(con.get("thorough_only", ())) | set(case.get("thorough_only", ())) if tier == "quick" else set()
                 for (nm, src) in E.named(list(con.get("ensures", [])) + list(case.get("ensures", []))):
+                    if nm in skip:
+                        continue          # clause whose proof needs the thorough tier's solver budget (named in the contract)
                     E.prove_spec(p, "%spost.%s" % (tag, nm), src, sctx, "post")
                 if con.get("post_hook"):
                     con["post_hook"](E, p, sctx, res, tag)
